@@ -9,10 +9,12 @@ import Hcl.Spec.Y86
 import Hcl.Model.Yo
 import Hcl.Spec.YoFormat
 import Hcl.Model.Dump
+import Hcl.Model.Messages
 import Hcl.Spec.DumpFormat
 import Hcl.Model.Cli
 import Hcl.Model.Lexer
 import Hcl.Model.Parser
+import Hcl.Model.ParserStmts
 import Hcl.Model.Io
 import Hcl.Spec.Locate
 import Hcl.Generated
@@ -141,6 +143,80 @@ def loopsVerdict (stmts : List Stmt) (fields : List SExp) : String :=
   if loops.isEmpty then "" else
   if loops.all (fun (c, links) => Spec.loopReal stmts c && links == (c.rotateLeft 1).zip c) then " loops-real" else " loops-BOGUS"
 
+def unescapeText (s : String) : String :=
+  String.ofList (s.toList.map fun c => if c == '␣' then ' ' else if c == '⦅' then '(' else if c == '⦆' then ')' else if c == '⏎' then '\n' else c)
+
+/-! ### The statement-grammar model against the real parser's AST -/
+
+/-- Classification `(whitespace, alphabetic, alphanumeric)` of the non-ASCII characters the harness's generators use, for
+    requests whose `cls` field carries only lower/upper case (the `prog`/`run` requests): Unicode `White_Space` exactly,
+    the letters of Latin-1 .. Latin Extended-B, Greek, Cyrillic, kana and CJK ideographs, the Roman numerals (letters as
+    well as numbers), and the Latin-1 and Arabic-Indic digits and fractions.  `none`: not classified here. -/
+def fallbackCls (c : Char) : Option (Bool × Bool × Bool) :=
+  let n := c.toNat
+  if n == 0x85 || n == 0xA0 || n == 0x1680 || (0x2000 ≤ n && n ≤ 0x200A) || n == 0x2028 || n == 0x2029 || n == 0x202F ||
+     n == 0x205F || n == 0x3000 then some (true, false, false)
+  else if n == 0xAA || n == 0xB5 || n == 0xBA || (0xC0 ≤ n && n ≤ 0x24F && n != 0xD7 && n != 0xF7) ||
+     (0x391 ≤ n && n ≤ 0x3A1) || (0x3A3 ≤ n && n ≤ 0x3C9) || (0x410 ≤ n && n ≤ 0x44F) ||
+     (0x3041 ≤ n && n ≤ 0x3096) || (0x30A1 ≤ n && n ≤ 0x30FA) || (0x4E00 ≤ n && n ≤ 0x9FFF) ||
+     (0x2160 ≤ n && n ≤ 0x2188) then some (false, true, true)
+  else if n == 0xB2 || n == 0xB3 || n == 0xB9 || (0xBC ≤ n && n ≤ 0xBE) || (0x660 ≤ n && n ≤ 0x669) then some (false, false, true)
+  else if (0x80 ≤ n && n < 0xC0) || n == 0xD7 || n == 0xF7 || (0x300 ≤ n && n ≤ 0x36F) || (0x2010 ≤ n && n ≤ 0x2027) ||
+     (0x2030 ≤ n && n ≤ 0x205E) || (0x20A0 ≤ n && n ≤ 0x20C0) || n == 0xFFFD || (0x1F300 ≤ n && n ≤ 0x1FAFF) then some (false, false, false)
+  else none
+
+/-- the lexer's character classes from a `cls` field of either shape: `(CODEPOINT whitespace alphabetic alphanumeric)`
+    (exact) or `(CODEPOINT lower upper)` (a cased character is a letter; otherwise `fallbackCls`) -/
+def stmtsLexCls (l : List SExp) : Lexer.CharCls :=
+  let exact : List (Nat × Bool × Bool × Bool) := l.filterMap fun e => match e with
+    | .list [.atom c, .atom a, .atom b, .atom d] => c.toNat?.map fun n => (n, a == "1", b == "1", d == "1")
+    | .list [.atom c, .atom lo, .atom up] => if lo == "1" || up == "1" then c.toNat?.map fun n => (n, false, true, true) else none
+    | _ => none
+  let look (c : Char) : Bool × Bool × Bool :=
+    match exact.find? (fun t => t.1 == c.toNat) with
+    | some t => t.2
+    | none => (fallbackCls c).getD (false, false, false)
+  { isWhitespace := fun c => if c.toNat < 128 then Lexer.asciiCls.isWhitespace c else (look c).1,
+    isAlphabetic := fun c => if c.toNat < 128 then Lexer.asciiCls.isAlphabetic c else (look c).2.1,
+    isAlphanumeric := fun c => if c.toNat < 128 then Lexer.asciiCls.isAlphanumeric c else (look c).2.2 }
+
+/-- is every non-ASCII character of the text classified (by the request or by `fallbackCls`)? -/
+def stmtsClsKnown (l : List SExp) (text : List Char) : Bool :=
+  let listed : List Nat := l.filterMap fun e => match e with
+    | .list [.atom c, _, _, _] => c.toNat?
+    | .list [.atom c, .atom lo, .atom up] => if lo == "1" || up == "1" then c.toNat? else none
+    | _ => none
+  text.all fun c => c.toNat < 128 || listed.contains c.toNat || (fallbackCls c).isSome
+
+def hasField (fields : List SExp) (name : String) : Bool :=
+  fields.any fun f => match f with | .list (.atom t :: _) => t == name | _ => false
+
+/-- the preamble the real code puts in front of the user's text (ASCII); a request with `(nopreamble 1)` is about a text
+    that was parsed on its own -/
+def preambleChars (fields : List SExp) : List Char :=
+  if hasField fields "nopreamble" then [] else Generated.preambleBytes.map Char.ofNat
+
+/-- the statement-grammar model on preamble + the request's `text` against the real parser's AST (`stmts`): the token
+    appended to the verdict part of the answer, or nothing when the request has no `text` -/
+def stmtsModelVerdict (fields : List SExp) (stmts : List Stmt) : String :=
+  if !hasField fields "text" then "" else
+  let user : List Char := match field fields "text" with
+    | [.atom t] => (unescapeText t).toList
+    | _ => []
+  if !stmtsClsKnown (field fields "cls") user then " stmts-model-unclassified-char" else
+  match Parser.parseProgram (stmtsLexCls (field fields "cls")) (preambleChars fields ++ user) with
+  | none => " stmts-model-NONE"
+  | some mine => if mine == stmts then " stmts-model-agree" else " stmts-model-DIFFER"
+
+/-- a text the real parser rejected with errors (`(anytext .. (outcome ..) (lex (cls ..) (text CODEPOINTS)))`): the
+    model must not parse preamble + text -/
+def stmtsModelRejects (fields lexFields : List SExp) : String :=
+  let user : List Char := (field lexFields "text").filterMap fun e => e.nat?.map Char.ofNat
+  if !stmtsClsKnown (field lexFields "cls") user then "stmts-model-unclassified-char" else
+  match Parser.parseProgram (stmtsLexCls (field lexFields "cls")) (preambleChars fields ++ user) with
+  | none => "stmts-model-rejects"
+  | some _ => "stmts-model-ACCEPTS-REJECTED"
+
 def handleProg (fields : List SExp) : String :=
   let fl := decodeFlags (field fields "flags")
   let cls := decodeCls (field fields "cls")
@@ -169,14 +245,14 @@ def handleProg (fields : List SExp) : String :=
       let fs := Spec.faults fl cls.isLower cls.isUpper stmts
       if !fs.isEmpty then
         let names := sortStrings (fs.map fun f => (((repr f.cls).pretty.splitOn ".").getLast!) ++ ":" ++ f.name)
-        s!"M {model} ;; S rej {" ".intercalate names} ;; V {sched}{loopsVerdict stmts fields}"
+        s!"M {model} ;; S rej {" ".intercalate names} ;; V {sched}{loopsVerdict stmts fields}{stmtsModelVerdict fields stmts}"
       else
       let d := Spec.design stmts
       let image : List (Nat × Nat) := (pairList (field fields "mem")).filterMap fun p =>
         match p.1.toNat?, p.2.toNat? with | some a, some b => some (a, b) | _, _ => none
       let (sstates, sfin) := specStepN d (natField fields "cycles" 1) (Spec.initialState d image) []
       let spec := "ok" ++ String.join (sstates.map (" " ++ ·)) ++ " end=" ++ sfin
-      s!"M {model} ;; S {spec} ;; V {sched}"
+      s!"M {model} ;; S {spec} ;; V {sched}{stmtsModelVerdict fields stmts}"
   | _ => "bad-request no-stmts"
 
 def showBanner : Banner → String
@@ -235,7 +311,8 @@ def handleRun (fields : List SExp) : String :=
           if st == 2 then s!"run cycles={n} banner=halted cyclesrun={if n ≥ timeout then "-" else s!"{n}"} errorcode=-"
           else if n ≥ timeout then s!"run cycles={n} banner=timedout:{n} cyclesrun=- errorcode=-"
           else s!"run cycles={n} banner=error cyclesrun={n} errorcode={st}"
-      s!"M {model} ;; S {spec}"
+      let sv := stmtsModelVerdict fields stmts
+      s!"M {model} ;; S {spec}{if sv.isEmpty then "" else " ;; V" ++ sv}"
   | _ => "bad-request no-stmts"
 
 def handleDisasm (args : List SExp) : String :=
@@ -293,9 +370,6 @@ def handleYo (args : List SExp) : String :=
   s!"M {model} ;; S {spec}"
 
 def escapeNl (s : String) : String := s.replace "\n" "\\n"
-
-def unescapeText (s : String) : String :=
-  String.ofList (s.toList.map fun c => if c == '␣' then ' ' else if c == '⦅' then '(' else if c == '⦆' then ')' else if c == '⏎' then '\n' else c)
 
 def regNames : List String := ["RAX", "RCX", "RDX", "RBX", "RSP", "RBP", "RSI", "RDI", "R8", "R9", "R10", "R11", "R12", "R13", "R14"]
 
@@ -371,6 +445,25 @@ def handleTable (fields : List SExp) : String :=
         | .ok s0 =>
           let (tabs, fin) := tablesN fl p (natField fields "grouped" 1 == 1) (natField fields "cycles" 1) s0 []
           "M " ++ escapeNl (String.join (tabs.map (· ++ "=====\n"))) ++ "end=" ++ fin ++ " ;; S -"
+  | _ => "bad-request no-stmts"
+
+def handleMessages (fields : List SExp) : String :=
+  let fl := decodeFlags (field fields "flags")
+  let cls := decodeCls (field fields "cls")
+  match field fields "stmts" with
+  | [st] =>
+    match decodeStmts st with
+    | none => "bad-request undecodable-stmts"
+    | some stmts =>
+      match Program.new fl cls {} y86FixedFunctions stmts with
+      | .error ds => "M rej " ++ showDiags ds ++ " ;; S -"
+      | .ok p =>
+        match State.init p (memOf fields) with
+        | .error e => "M init-error " ++ showErr e ++ " ;; S -"
+        | .ok s0 =>
+          let (text, err) := Dump.messagesN fl (natField fields "assigns" 0 == 1) p (natField fields "cycles" 1) s0 ""
+          let fin := match err with | none => "ok" | some e => showErr e
+          "M " ++ escapeNl text ++ "end=" ++ fin ++ " ;; S -"
   | _ => "bad-request no-stmts"
 
 def strField (fields : List SExp) (name : String) : String :=
@@ -544,13 +637,14 @@ def handle (line : String) : String :=
     | some ("yo", args) => handleYo args
     | some ("dump", fields) => handleDump fields
     | some ("table", fields) => handleTable fields
+    | some ("messages", fields) => handleMessages fields
     | some ("cli", fields) => handleCli fields
     | some ("lex", fields) => handleLex fields
     | some ("rawfile", _) => "M - ;; S -"
     | some ("anytext", fields) =>
       (match innerRequest fields with
        | some ("prog", f) => handleProg f
-       | some ("lex", f) => handleLex f
+       | some ("lex", f) => handleLex f ++ (if hasField fields "outcome" then " ;; V " ++ stmtsModelRejects fields f else "")
        | _ => "bad-request anytext-without-inner")
     | some ("region", fields) => handleRegion fields
     | some ("diag", fields) => handleDiag fields
